@@ -97,7 +97,8 @@ class RecordingInput:
 class TWorld:
     impl = 'thread'
 
-    def __init__(self, config=None, coroutine_handlers=False, app_kwargs=None, ws_read_timeout=False):
+    def __init__(self, config=None, coroutine_handlers=False, app_kwargs=None, ws_read_timeout=False,
+                 legacy_disconnect=False):
         import engineio
         self.clock = vclock.reset()
         vclock.patch_engineio_time()
@@ -115,7 +116,7 @@ class TWorld:
         self.config = cfg
         self.server = VServer(async_mode='verif', **cfg)
         self.app_log = AppLog(self)
-        self.app_log.install(self.server, False)
+        self.app_log.install(self.server, False, legacy_disconnect)
         self.app = engineio.WSGIApp(self.server, **(app_kwargs or {}))
         self.ws_read_timeout = ws_read_timeout
         self.reqs, self.conns, self.calls = [], [], []
